@@ -12,7 +12,14 @@
    and every setting of the value-level engine switches ([quirks] travel in Init), for the
    repaired FunctionData.UpdateData ([repaired ops]: every Init selects fixed = true,
    patches/fix-C11-functiondata-update-on-copy.diff).  The pinned code is the same model
-   with fixed = false; it is refuted below. *)
+   with fixed = false; it is refuted below.
+
+   Scope note: the operations Keep / Ext of the model (runner family 5: the four EntityLocal
+   use-case operations against retained DataCopy results of nodeManagementUseCaseData) are NOT
+   transcriptions of code: the model's step for them touches nothing, so the theorems below say
+   nothing about that code.  They exist so that the extracted monitor can judge the
+   implementation's observations of those operations (clause handed-out-data-changed), a runtime
+   oracle only. *)
 From Coq Require Import String.
 From Verif Require Import Base.Prelude Model.Schema Model.Slices Model.SnapStore Spec.SnapSpec
   Proofs.SliceLogic Proofs.SnapProofs Gen.GenSchemas Gen.GenUpdateWiring.
